@@ -3,8 +3,8 @@ import os, random, json, subprocess, shutil
 import vlib, gen, skacli
 
 
-def faults(path, mode, n=5000, seed=1, threads=12, last_cap=6000):
-    p = subprocess.run([vlib.SKAV, "faults", path, mode, str(n), str(seed), str(threads), str(last_cap)], stdout=subprocess.PIPE,
+def faults(path, mode, n=5000, seed=1, threads=12, last_cap=6000, decoy=""):
+    p = subprocess.run([vlib.SKAV, "faults", path, mode, str(n), str(seed), str(threads), str(last_cap), decoy], stdout=subprocess.PIPE,
                        stderr=subprocess.PIPE, text=True, timeout=7000)
     if p.returncode != 0:
         raise vlib.ToolError("skav faults failed: " + p.stderr[-1000:])
@@ -130,7 +130,9 @@ def run(run, tier, seed):
         results = {}
         for name, path in files.items():
             if name.startswith("small"):
-                r = faults(path, "list")
+                # (the damaged copies of the small files carry no extension and have a valid file with other content beside
+                # them under the same name + ".skf", as `ska weed -o X` next to `ska build -o X` leaves them)
+                r = faults(path, "list", decoy=files["big64" if name == "small64" else "big128"])
             elif name == "huge64":
                 r = faults(path, "sample", n=300 if tier == "quick" else 3000, seed=seed, last_cap=0)
             elif tier == "quick" or name == "many64":
